@@ -167,10 +167,13 @@ pub fn check_one(ctx: &mut Ctx, family: &str, idx: u64, p: &PktM) {
 
 pub fn run(ctx: &mut Ctx) {
     let tier = ctx.tier;
-    let n = if ctx.slow_tool { 20 } else { tier.pick(10_000u64, 300_000u64) };
+    let n = if ctx.slow_tool { 20 } else { tier.pick(60_000u64, 3_000_000u64) };
     for idx in 0..n {
         if !ctx.take("shared", idx) {
             continue;
+        }
+        if ctx.stop("shared") {
+            break;
         }
         let mut r = ctx.rng("shared", idx);
         let mut cfg = super::c03::share_cfg();
@@ -185,12 +188,15 @@ pub fn run(ctx: &mut Ctx) {
         check_one(ctx, "shared", idx, &p);
     }
     if !ctx.slow_tool {
-        let reps = tier.pick(1u64, 10u64);
+        let reps = tier.pick(3u64, 40u64);
         for rep in 0..reps {
             for off in 16360..=16400u64 {
                 let idx = rep * 100_000 + off;
                 if !ctx.take("window", idx) {
                     continue;
+                }
+                if ctx.stop("window") {
+                    break;
                 }
                 let mut r = ctx.rng("window", idx);
                 let p = super::c03::window_packet(&mut r, off as usize);
